@@ -115,6 +115,15 @@ func authtxWorld(rng *Rng, n int, out *Out, replay string, variant int) {
 			emitRoleStores(app, ctx, out)
 		}
 		end()
+		// the margin world (see marginWorld): two unhealthy LONG positions of a trader; the epoch is so long that no block of
+		// this run is an epoch boundary, where the begin blocker itself would liquidate them
+		begin()
+		marginWorld(app, func(int64) sdk.Context {
+			end()
+			begin()
+			return dctx()
+		}, height, 1000000)
+		end()
 
 		var cases []handlerCase
 		for _, hc := range mkCases(app, addrs) {
@@ -272,6 +281,25 @@ func authtxWorld(rng *Rng, n int, out *Out, replay string, variant int) {
 			out.Emit(fmt.Sprintf("sim %d%s", len(items), descr), res, "branch.sim."+res, true)
 		}
 
+		// probes where the guard is the only thing that refuses: every account without the MARGIN role signs MsgForceClose
+		// (position 1) and MsgAdminClose (position 2), then one MARGIN holder each closes them
+		for _, hc := range cases {
+			if !hc.lenient {
+				continue
+			}
+			exact := hc
+			exact.lenient = false
+			for a := 0; a < NACC; a++ {
+				if a != 5 && a != 6 {
+					one(exact, []string{"direct", "wrapped"}[a%2], a, a)
+				}
+			}
+			if hc.name == "ForceClose" {
+				one(exact, "direct", 5, 0)
+			} else {
+				one(exact, "wrapped", 6, 0)
+			}
+		}
 		// phase 1: every handler, direct and wrapped, by its role holder and by a stranger; spoofed both ways
 		for _, hc := range cases {
 			if hc.name == "AddAccount" || hc.name == "RemoveAccount" {
